@@ -7,6 +7,7 @@ import (
 	"go/token"
 	"go/types"
 	"reflect"
+	"regexp"
 	"sort"
 	"strings"
 
@@ -14,8 +15,8 @@ import (
 )
 
 func init() {
-	props["C15"] = &propDef{run: runC15, explanation: "Partial (structural agreement of signer and verifier; not the cryptography). Decided statically: (X1) the signer's curve→hash table and the verifier's curve-name→(curve, coordinate width, hash) table agree row by row, every width equals ⌈bit size/8⌉ of the curve named in the same row (specification table P-256:256, P-384:384, P-521:521, secp256k1:256), and the signer pads r and s to ⌈BitSize/8⌉ computed from the key's own curve; (X2) one signingInput function produces the signing input for both signing and verification from (headers, payload); compact serialisation and parsing use the single encoding base64.RawURLEncoding, the separator '.', and exactly three parts; (G1) the verifier slices the signature only behind len(sig) == 2·width, tests the boolean results of ecdsa.Verify / ed25519.Verify, guards the Ed25519 key size, rejects empty signature / payload segments, and SignPayload refuses a signer without an alg header. Not decided: 'verifies iff produced by the matching key over the same bytes' (cryptography,  go-jose key decoding). (K2) JOSE headers on the parse / verify paths are decoded with the go-jose decoder, which refuses duplicate member names (read from the library source): the verified signing input is rebuilt from the parsed header, so anything the decoder drops would be unsigned header content. The C16 rules (JWK coordinate width, padding helpers, strict reading) run inside this check as well. SerializeCompact writes each segment as the unpadded base64url text of its part. A supplied detached payload is the payload on every accepting path; NewJWS stores header maps made for that JWS; the compact form is three dot-separated segments however assembled. NewJWS hands sign the JOSE headers it stores; ed25519.Verify receives the whole signature parameter. VerifySignature accepts only behind Verify; the signer emits ecdsa.Sign's r and s as returned; Signature() returns a copy."}
-	props["C16"] = &propDef{run: runC16, explanation: "Partial (thin). Decided statically: (K1) secp256k1 JWK marshalling pads X and Y (public and private form) through one padding helper with the constant 32 = ⌈256/8⌉, and the helper left-pads to exactly the requested length; (G1) unmarshalling a secp256k1 JWK succeeds only with X and Y present, each of length curveSize(S256) and the point on the curve (IsOnCurve true edge); curveSize is ⌈BitSize/8⌉; (T1) GetPublicKeyJWK's type switch admits exactly ed25519.PublicKey, *rsa.PublicKey and *ecdsa.PublicKey, marks a key as (EC, secp256k1) exactly when its curve is btcec.S256(), and rejects other types; isSecp256k1 compares both kty and crv. Not decided: the NIST and Ed25519 encodings (delegated to go-jose) and round-trip equality. (G2) closed rejection set of the secp256k1 reader: it says no only for a missing coordinate, a coordinate / private value of the wrong width, or a point off the curve (conditions inside helper predicates are followed). (K2) every (*big.Int).Bytes() flows only into a right-aligning sink; (G3) byteBuffer.data is exactly the base64url decoder's result. (*JWK).UnmarshalJSON stores the decoded key-type and curve labels before every accepting exit. The secp256k1 encoder writes the registered key-type and curve names; key conversion functions keep no state between calls. EC keys are built only in the checked reader's call tree; every decode into go-jose's JSONWebKey sits inside the strict reader; jws.JWK.Validate has the closed set of refusals; C15.X1's curve tables run here."}
+	props["C15"] = &propDef{run: runC15, explanation: "Partial (structural agreement of signer and verifier; not the cryptography). Decided statically: (X1) the signer's curve→hash table and the verifier's curve-name→(curve, coordinate width, hash) table agree row by row, every width equals ⌈bit size/8⌉ of the curve named in the same row (specification table P-256:256, P-384:384, P-521:521, secp256k1:256), and the signer pads r and s to ⌈BitSize/8⌉ computed from the key's own curve; (X2) one signingInput function produces the signing input for both signing and verification from (headers, payload); compact serialisation and parsing use the single encoding base64.RawURLEncoding, the separator '.', and exactly three parts; (G1) the verifier slices the signature only behind len(sig) == 2·width, tests the boolean results of ecdsa.Verify / ed25519.Verify, guards the Ed25519 key size, rejects empty signature / payload segments, and SignPayload refuses a signer without an alg header. Not decided: 'verifies iff produced by the matching key over the same bytes' (cryptography,  go-jose key decoding). (K2) JOSE headers on the parse / verify paths are decoded with the go-jose decoder, which refuses duplicate member names (read from the library source): the verified signing input is rebuilt from the parsed header, so anything the decoder drops would be unsigned header content. The C16 rules (JWK coordinate width, padding helpers, strict reading) run inside this check as well. SerializeCompact writes each segment as the unpadded base64url text of its part. A supplied detached payload is the payload on every accepting path; NewJWS stores header maps made for that JWS; the compact form is three dot-separated segments however assembled. NewJWS hands sign the JOSE headers it stores; ed25519.Verify receives the whole signature parameter. VerifySignature accepts only behind Verify; the signer emits ecdsa.Sign's r and s as returned; Signature() returns a copy. The signing input is checked in concatenation form per alternative."}
+	props["C16"] = &propDef{run: runC16, explanation: "Partial (thin). Decided statically: (K1) secp256k1 JWK marshalling pads X and Y (public and private form) through one padding helper with the constant 32 = ⌈256/8⌉, and the helper left-pads to exactly the requested length; (G1) unmarshalling a secp256k1 JWK succeeds only with X and Y present, each of length curveSize(S256) and the point on the curve (IsOnCurve true edge); curveSize is ⌈BitSize/8⌉; (T1) GetPublicKeyJWK's type switch admits exactly ed25519.PublicKey, *rsa.PublicKey and *ecdsa.PublicKey, marks a key as (EC, secp256k1) exactly when its curve is btcec.S256(), and rejects other types; isSecp256k1 compares both kty and crv. Not decided: the NIST and Ed25519 encodings (delegated to go-jose) and round-trip equality. (G2) closed rejection set of the secp256k1 reader: it says no only for a missing coordinate, a coordinate / private value of the wrong width, or a point off the curve (conditions inside helper predicates are followed). (K2) every (*big.Int).Bytes() flows only into a right-aligning sink; (G3) byteBuffer.data is exactly the base64url decoder's result. (*JWK).UnmarshalJSON stores the decoded key-type and curve labels before every accepting exit. The secp256k1 encoder writes the registered key-type and curve names; key conversion functions keep no state between calls. EC keys are built only in the checked reader's call tree; every decode into go-jose's JSONWebKey sits inside the strict reader; jws.JWK.Validate has the closed set of refusals; C15.X1's curve tables run here. JWK copies are member for member; C19.N on the JWK reader's functions."}
 }
 
 var curveBits = map[string]int{"crypto/elliptic.P256()": 256, "crypto/elliptic.P384()": 384, "crypto/elliptic.P521()": 521, "github.com/btcsuite/btcd/btcec/v2.S256()": 256}
@@ -72,7 +73,54 @@ func runC15(c *Ctx) {
 				fm = c.Path(cl.Call.Args[0], nil)
 			}
 		})
-		c.Check("C15.X2", "signingInput:format", fm == `"%s.%s"`, si.Pos(), "signing input format "+fm)
+		_ = fm
+		// the text handed back, in concatenation form (by format string, + or +=): the encoded header, ".", and the
+		// payload — encoded, or as it stands where the header says so
+		{
+			var forms []string
+			var alts func(v ssa.Value, d int)
+			alts = func(v ssa.Value, d int) {
+				switch x := v.(type) {
+				case *ssa.Phi:
+					if d < 4 {
+						for _, e := range x.Edges {
+							alts(e, d+1)
+						}
+						return
+					}
+				case *ssa.Convert:
+					alts(x.X, d+1)
+					return
+				}
+				f := c.concatForm(v, nil)
+				// (a payload text chosen beforehand: one form per choice)
+				if i := strings.LastIndex(f, " ++ phi("); i >= 0 && strings.HasSuffix(f, ")") {
+					for _, a := range strings.Split(f[i+len(" ++ phi("):len(f)-1], "|") {
+						forms = append(forms, f[:i]+" ++ "+a)
+					}
+					return
+				}
+				forms = append(forms, f)
+			}
+			for _, r := range successReturns(si) {
+				alts(returnedValue(r, 0), 0)
+			}
+			sort.Strings(forms)
+			forms = uniqStrs(forms)
+			hdr := `(*encoding/base64.Encoding).EncodeToString(global:encoding/base64.RawURLEncoding,`
+			okF := len(forms) == 2
+			for _, f := range forms {
+				p := strings.Split(f, " ++ ")
+				if len(p) != 3 || !strings.HasPrefix(p[0], hdr) || strings.Contains(p[0], "$1") || p[1] != `"."` {
+					okF = false
+				}
+			}
+			if okF {
+				a, b := strings.Split(forms[0], " ++ ")[2], strings.Split(forms[1], " ++ ")[2]
+				okF = a == hdr+"$1)" && b == "conv<string>($1)"
+			}
+			c.Check("C15.X2", "signingInput:format", okF, si.Pos(), fmt.Sprintf("signing input = b64url(headers) ++ \".\" ++ (b64url(payload) | payload): %v", forms))
+		}
 	}
 	// all base64 uses in jwsutil are RawURLEncoding
 	{
@@ -423,7 +471,7 @@ func runC15(c *Ctx) {
 
 	// "verifies under the matching public JWK": the JWK the library produces for a key (fixed-width coordinates, curve
 	// marking, strict reading) is the subject of C16; those rules are part of this check as well
-	runC16(c)
+	c.apart(runC16)
 	c.Assume("ECDSA/EdDSA soundness; go-jose key decoding; specification table of curve bit sizes encoded in the checker")
 }
 
@@ -632,6 +680,52 @@ func runC16(c *Ctx) {
 			})
 		}
 		c.Check("C16.G1", "jwk-texts-read-by-the-strict-reader-only", uj != nil && n > 0 && len(bad) == 0, 0, fmt.Sprintf("%d decode(s) into go-jose's JSONWebKey in the module, all inside (*jwsutil.JWK).UnmarshalJSON", n), bad...)
+	}
+	// a JWK rebuilt from another JWK (the document's key handed to the Ed25519 reader, a key copied between the two JWK
+	// types) is copied member for member: kty from kty, crv from crv, x from x, y from y — a label supplied by the copying
+	// code ("OKP", because it is an Ed25519 key after all) makes the reader accept a key that names another type
+	{
+		jt := c.NamedType("jws", "JWK")
+		memberRe := regexp.MustCompile(`^(?:\(document\.JWK\)\.(Kty|Crv|X|Y|Nonce)\((.+)\)|(.+)\.(Kty|Crv|X|Y|Nonce))$`)
+		n := 0
+		var bad []string
+		for _, f := range c.Funcs {
+			if jt == nil || !strings.HasPrefix(pkgPathOf(f), modPkg) || f.Blocks == nil {
+				continue
+			}
+			for _, a := range allocsOf(f, jt) {
+				ft := c.fieldTable(a, nil)
+				src := ""
+				for _, vs := range ft {
+					for _, v := range vs {
+						if m := memberRe.FindStringSubmatch(v); m != nil {
+							src = m[2] + m[3]
+						}
+					}
+				}
+				if src == "" {
+					continue // (not a copy of another JWK)
+				}
+				n++
+				for _, fld := range []string{"Kty", "Crv", "X", "Y"} {
+					vs := ft[fld]
+					if len(vs) == 0 {
+						if fld == "Y" {
+							continue
+						}
+						bad = append(bad, fmt.Sprintf("%s: %s copies a JWK from %s without its %s", c.pos(a.Pos()), short(f.String()), src, fld))
+						continue
+					}
+					for _, v := range vs {
+						m := memberRe.FindStringSubmatch(v)
+						if m == nil || m[1]+m[4] != fld || m[2]+m[3] != src {
+							bad = append(bad, fmt.Sprintf("%s: %s fills %s of the copied JWK from %s (expected the %s of %s)", c.pos(a.Pos()), short(f.String()), fld, v, fld, src))
+						}
+					}
+				}
+			}
+		}
+		c.Check("C16.G1", "jwk-copies:member-for-member", n >= 1 && len(bad) == 0, 0, fmt.Sprintf("%d JWK(s) in the module built from another JWK; each of kty, crv, x, y comes from the member of that name", n), bad...)
 	}
 	// the public JWK type's own check (called by the request builders and by the parser before the key is read) refuses
 	// a key only for a missing kty, n, e, crv or x: a further demand — a coordinate "length" computed from the curve —
@@ -916,10 +1010,14 @@ func runC16(c *Ctx) {
 		}
 		nK, nC := 0, 0
 		okMark := len(s256) > 0
-		forEachInstr(gp, func(in ssa.Instruction) {
+		var markStores []ssa.Instruction
+		for _, fr := range frames {
+			forEachInstr(fr.fn, func(in ssa.Instruction) { markStores = append(markStores, in) })
+		}
+		for _, in := range markStores {
 			st, isS := in.(*ssa.Store)
 			if !isS {
-				return
+				continue
 			}
 			p := c.Path(st.Addr, nil)
 			switch {
@@ -936,7 +1034,7 @@ func runC16(c *Ctx) {
 				}
 				okMark = okMark && ok
 			}
-		})
+		}
 		nSt := 2
 		okMark = okMark && nK == 1 && nC == 1
 		c.Check("C16.T1", "GetPublicKeyJWK:secp256k1-marking", okMark && nSt == 2, gp.Pos(), "kty/crv are set to (EC, secp256k1) exactly on the curve == btcec.S256() edge")
@@ -1086,6 +1184,10 @@ func runC16(c *Ctx) {
 	// names (exact, one per curve) — a name matched loosely there makes one key readable under several JWK texts, each
 	// with its own commitment
 	c.signerVerifierTables("C15.X1")
+	// "… are rejected": with an error — the JWK reader dereferences the optional coordinate members ("x", "y", "d" may
+	// be absent or null) only behind a nil test (C19.N on the reader's functions); a panic is not a refusal
+	c.only(runC19, "C19.N::jwsutil.unmarshalSecp256k1", "C19.N::(*jwsutil.JWK).", "C19.N::(*jwsutil.byteBuffer).", "C19.N::jwsutil.marshalSecp256k1")
+	c.Min("C19.N", 3)
 }
 
 // edgeConds: the canonical conditions that hold when control passes from block p to its successor b.
@@ -1222,6 +1324,26 @@ func (c *Ctx) signerVerifierTables(rule string) bool {
 			}
 		}
 	})
+	// the same search written as a loop over a table of (curve, hash) rows: one comparison per row
+	if tes := c.tableLoopEnvs(getHasher, nil); len(tes) > 0 {
+		rows := map[string]string{}
+		for _, te := range tes {
+			forEachInstr(getHasher, func(in ssa.Instruction) {
+				bo, ok := in.(*ssa.BinOp)
+				if !ok || bo.Op != token.EQL || c.Path(bo.X, nil) != "$0" {
+					return
+				}
+				for _, e := range boolEdges(bo, true) {
+					if r, isR := e.to.Instrs[len(e.to.Instrs)-1].(*ssa.Return); isR {
+						rows[c.Path(bo.Y, te)] = hashOf(c.Path(r.Results[0], te))
+					}
+				}
+			})
+		}
+		if len(rows) == len(tes) {
+			signer = rows
+		}
+	}
 	// what getHasher returns when no comparison matched (the default / fall-through arm)
 	signerDefault := ""
 	{
